@@ -7,7 +7,9 @@
   * calls cancelled in flight and calls cancelled while waiting for the client mutex (a row whose request was never sent);
   * an ECU subclass whose state object has further keys; a server whose state object has a further key;
   * pauses between the replayed requests (the inactivity reset of handle_request);
-  * a synthetic table of state objects (missing / extra keys, wrong types) matched key by key.
+  * a synthetic table of state objects (missing / extra keys, wrong types) matched key by key;
+  * runs whose property columns are written by the real DBHandler calls only (`record_run(pre=, post=)`): pre-properties written or
+    not (NULL), completed with post-properties or not.
 
 Everything is replayed through UDSServerTransport.handle_request with the server's state and cursor read after every request,
 and through the Lean model (`serve` of Driver/C12.lean) on the rows as read back with sqlite3."""
@@ -90,6 +92,43 @@ def bad_reply(rng, req, good):
     return rng.choice(pool)
 
 
+class VariantECU:
+    """another ECU of the same family: the same services and state machine as `inner`, other identification data - every positive
+    ReadDataByIdentifier reply (but the active session, 0xF186) carries a further byte"""
+
+    def __init__(self, inner, tag):
+        self.inner, self.tag = inner, tag
+
+    def __call__(self, req):
+        r = self.inner(req)
+        if r is not None and len(r) >= 3 and r[0] == 0x62 and r[1:3] != b"\xf1\x86":
+            return r + bytes([self.tag])
+        return r
+
+
+_PROPS = []
+
+
+def props_obj(d):
+    """an `ECUProperties` object as an OEM ECU class returns it from `properties()`: a dataclass over the keys of `d`"""
+    from dataclasses import make_dataclass
+
+    from gallia.services.uds.ecu import ECUProperties
+
+    keys = tuple(d.keys())
+    for k, cls in _PROPS:
+        if k == keys:
+            return cls(**d)
+    cls = make_dataclass("VerifProperties", [(k, object) for k in keys], bases=(ECUProperties,))
+    _PROPS.append((keys, cls))
+    return cls(**d)
+
+
+def col(text):
+    """a JSON column of scan_run for the model: `~` SQL NULL, else its top-level keys in document order"""
+    return "~" if text is None else kvs(json.loads(text))
+
+
 def oem_classes():
     from gallia.services.uds.core import service
     from gallia.services.uds.ecu import ECU, ECUState
@@ -125,8 +164,13 @@ def oem_classes():
 # ---------------------------------------------------------------------------------------------------------------------
 # recording
 
-async def record_run(dbp, url, ecufn, steps, oem=False):
-    """one scan run: returns {"run", "calls": [(request, reply|None, sent)], "wire": [pdu]}; `calls` in completion order"""
+NOT_CALLED = object()
+
+
+async def record_run(dbp, url, ecufn, steps, oem=False, pre=NOT_CALLED, post=NOT_CALLED):
+    """one scan run: returns {"run", "calls": [(request, reply|None, sent)], "wire": [pdu]}; `calls` in completion order.
+    `pre` / `post`: property dictionaries written through the real `DBHandler.insert_scan_run_properties_pre` / `complete_scan_run`
+    the way `UDSScanner.setup` / `teardown` do; NOT_CALLED: the call does not happen (the write failed / was skipped / the scan died)"""
     from gallia.db.handler import DBHandler
     from gallia.services.uds.ecu import ECU
     from lib.fakeecu import FnTransport
@@ -155,6 +199,8 @@ async def record_run(dbp, url, ecufn, steps, oem=False):
     await db.insert_run_meta("verif-c12", _Cfg(), datetime.now(UTC).astimezone(), None)
     await db.insert_scan_run(url)
     ecu.db_handler = db
+    if pre is not NOT_CALLED:
+        await db.insert_scan_run_properties_pre(props_obj(pre))
     calls = []
     last_reply = [None]
 
@@ -204,12 +250,15 @@ async def record_run(dbp, url, ecufn, steps, oem=False):
             ev, hold["ev"] = hold["ev"], None
             ev.set()
             calls.append((item[1], await ta, True))
+    if post is not NOT_CALLED:
+        await db.complete_scan_run(props_obj(post))
     await db.disconnect()
     return {"run": db.scan_run, "calls": calls, "wire": list(tr.wire)}
 
 
 def name_runs(dbp, named):
-    """named: [(run_id, url, ecu_name, properties_pre dict)] - written the way a user (or an OEM ECU class) would"""
+    """named: [(run_id, url, ecu_name, properties_pre dict)] - written the way a user (or an OEM ECU class) would;
+    properties None: the column stays what the recorder's DBHandler calls left"""
     c = sqlite3.connect(dbp)
     seen = {}
     for run_id, url, name, props in named:
@@ -217,7 +266,8 @@ def name_runs(dbp, named):
             c.execute("INSERT INTO ecu(name) VALUES(?)", (name,))
             seen[name] = c.execute("SELECT last_insert_rowid()").fetchone()[0]
         c.execute("UPDATE address SET ecu=? WHERE url=?", (seen[name], url))
-        c.execute("UPDATE scan_run SET properties_pre=? WHERE id=?", (json.dumps(props), run_id))
+        if props is not None:
+            c.execute("UPDATE scan_run SET properties_pre=? WHERE id=?", (json.dumps(props), run_id))
     c.commit()
     c.close()
 
@@ -266,10 +316,9 @@ def db_for_model(dbp):
     """(runs text, rows text, {run: [(id, request hex, reply hex|None)]})"""
     c = sqlite3.connect(dbp)
     runs = []
-    for (run, pp) in c.execute("SELECT id, properties_pre FROM scan_run ORDER BY id").fetchall():
+    for (run, pp, po) in c.execute("SELECT id, properties_pre, properties_post FROM scan_run ORDER BY id").fetchall():
         name = c.execute("SELECT e.name FROM scan_run s, address a, ecu e WHERE s.id=? AND s.address=a.id AND a.ecu=e.id", (run,)).fetchone()
-        pp = json.loads(pp) if pp else {}
-        runs.append(f"{run}/{name[0].encode().hex() if name else '-'}/{kvs(pp)}")
+        runs.append(f"{run}/{name[0].encode().hex() if name else '-'}/{col(pp)}/{col(po)}")
     rows, per_run = [], {}
     for rid, run, state, req, resp in c.execute("SELECT id, run, state, request_pdu, response_pdu FROM scan_result ORDER BY id"):
         st = json.loads(state)
@@ -278,6 +327,14 @@ def db_for_model(dbp):
         per_run.setdefault(run, []).append((rid, req, resp))
     c.close()
     return ";".join(runs), ";".join(rows), per_run
+
+
+def run_columns(dbp):
+    """{run: (properties_pre, properties_post)} as the model reads them"""
+    c = sqlite3.connect(dbp)
+    out = {run: (col(pp), col(po)) for run, pp, po in c.execute("SELECT id, properties_pre, properties_post FROM scan_run")}
+    c.close()
+    return out
 
 
 def serve_line(sel_name, sel_props, xs, runs_txt, rows_txt, reqs):
